@@ -7,6 +7,10 @@ import (
 	"path/filepath"
 	"strings"
 	"sync"
+	"time"
+
+	"github.com/google/uuid"
+	"golang.org/x/sys/unix"
 
 	"dsim/core"
 	"dsim/simdisk"
@@ -88,7 +92,23 @@ type builtImage struct {
 	Unit int64 // natural block/cluster size
 }
 
+// hostTreeTime is the fixed timestamp given to every workspace entry so that images built from
+// the same tree are byte-identical from run to run (replays depend on it).
+var hostTreeTime = time.Unix(1700000000, 0)
+
+func fixHostTimes(dir string) {
+	_ = filepath.Walk(dir, func(p string, info os.FileInfo, err error) error {
+		if err != nil {
+			return nil
+		}
+		tv := []unix.Timeval{{Sec: hostTreeTime.Unix()}, {Sec: hostTreeTime.Unix()}}
+		_ = unix.Lutimes(p, tv)
+		return nil
+	})
+}
+
 func writeHostTree(dir string, tree []imgEntry) error {
+	defer fixHostTimes(dir)
 	for _, e := range tree {
 		hp := filepath.Join(dir, filepath.FromSlash(e.Path))
 		switch {
@@ -114,6 +134,9 @@ func writeHostTree(dir string, tree []imgEntry) error {
 // buildImage creates an image of the given kind holding tree, at byte offset start of a fresh SimDisk.
 // opt: "size" (bytes, 0 = default per kind), "bs" (block size knob), "sqcomp" (squashfs compressor index).
 func buildImage(kind string, tree []imgEntry, start int64, opt map[string]int64) (*builtImage, error) {
+	// entropy used by the writers (ext4 UUID and hash seed) is pinned so that the same inputs give the same image
+	uuid.SetRand(seededReader{core.NewRng(core.HashStr(kind) ^ 0x1d)})
+	defer uuid.SetRand(nil)
 	size := opt["size"]
 	bi := &builtImage{Kind: kind, Start: start}
 	switch {
